@@ -72,7 +72,141 @@ Example c25_example :
        ([114; 47; 122], 4%nat, ([119; 46; 101; 46], 6, [1; 2; 3; 4]))]%N, None).
 Proof. split; vm_compute; reflexivity. Qed.
 
+(* ======================================================================================= *)
+(* The per-file parser as an ITERATOR WITH STATE (as in the Rust code: every stack entry owns a
+   zone_file::Parser<File>), and its instance with the FULL zone-file parser model of C24.     *)
+From Coq Require Import String Ascii.
+From QV Require Import Model.NameWire Model.ZfReader Model.ZfParser Spec.ZfValidS Model.ZfInc Spec.ZfIncS
+  Proofs.ZfIncP Proofs.ZfIncFullP.
+
+(* For every per-file iterator (next / context get / context set / creation on a file's content),
+   file system and depth limit: if the spec's per-file budget k is not exhausted, then iterating
+   fs::Parser::next (with enough fuel) yields exactly the records of the structural expansion
+   [gexpand], followed by its first error / its end. *)
+Theorem c25_iter_stack_eq_expand :
+  forall (Origin Own Ttl Cls Rec SErr Num P F : Type)
+         (pnext : P -> pres Origin Rec SErr Num P) (pctx : P -> ZfFs.ctx Origin Own Ttl Cls)
+         (pwith : P -> ZfFs.ctx Origin Own Ttl Cls -> P) (pnew : F -> ZfFs.ctx Origin Own Ttl Cls -> P)
+         (fs : path -> option F) (size : P -> nat) (max_depth : nat) p0 n0 s0 k,
+  snd (gexpand Origin Own Ttl Cls Rec SErr Num P F pnext pctx pwith pnew fs size max_depth [] p0 k s0)
+    <> GFuel _ _ _ _ _ _ ->
+  exists f0, forall fuel, f0 <= fuel ->
+    ZfInc.run Origin Own Ttl Cls Rec SErr Num P F pnext pctx pwith pnew fs max_depth fuel [(p0, n0, s0)] =
+    (fst (gexpand Origin Own Ttl Cls Rec SErr Num P F pnext pctx pwith pnew fs size max_depth [] p0 k s0),
+     gfinal_of Origin Own Ttl Cls SErr Num
+       (snd (gexpand Origin Own Ttl Cls Rec SErr Num P F pnext pctx pwith pnew fs size max_depth [] p0 k s0))).
+Proof. intros. apply run_eq_gexpand. assumption. Qed.
+
+Theorem c25_iter_depth :
+  forall (Origin Own Ttl Cls Rec SErr Num P F : Type)
+         (pnext : P -> pres Origin Rec SErr Num P) (pctx : P -> ZfFs.ctx Origin Own Ttl Cls)
+         (pwith : P -> ZfFs.ctx Origin Own Ttl Cls -> P) (pnew : F -> ZfFs.ctx Origin Own Ttl Cls -> P)
+         (fs : path -> option F) (size : P -> nat) chain p k s n ip o s',
+  pnext s = PInc _ _ _ _ _ n ip o s' ->
+  gexpand Origin Own Ttl Cls Rec SErr Num P F pnext pctx pwith pnew fs size 0 chain p (S k) s =
+  ([], GBad _ _ _ _ _ _ p (ITooDeep _ _ n (chain ++ [(p, n)]))).
+Proof. intros. eapply gexpand_too_deep. eassumption. Qed.
+
+(* THE ZONE-FILE PARSER.  [full_run] = the include machine whose per-file parser is the model of
+   <zone_file::Parser as Iterator>::next of C24 (Model/ZfParser.v) on the files' octets;
+   [full_expand_root] = the structural expansion with the same parser.  For every file system in
+   which every file that can be opened has a parent directory (the assumption stated in
+   compute_path's comment), every depth limit, root path and root content: *)
+Theorem c25_full_stack_eq_expand :
+  forall (fs : path -> option bytes) (max_depth : nat) (p0 : path) (content0 : bytes),
+  (forall p c, fs p = Some c -> has_parent p) -> has_parent p0 ->
+  exists f0, forall fuel, f0 <= fuel ->
+    full_run fs max_depth fuel [(p0, 0%N, parser_new content0)] =
+    (fst (full_expand_root fs max_depth p0 content0),
+     gfinal_of _ _ _ _ _ _ (snd (full_expand_root fs max_depth p0 content0))).
+Proof. intros fs d p0 c0 H1 H2. exact (full_run_eq_expand fs H1 d p0 c0 H2). Qed.
+
+(* ... the run ends (for all large fuel) with the end of the root file or with an error of
+   fs::Parser — never a panic, never the model's fuel (neither the machine's, nor the per-file
+   parser's, nor the spec's budget) — and every record yielded through any nesting of includes is
+   valid in the sense of C24 (good absolute owner, type not NULL/OPT/TSIG, RDATA accepted by the
+   model of Rdata::validate): C24 holds across include boundaries. *)
+Theorem c25_full_total_valid :
+  forall (fs : path -> option bytes) (max_depth : nat) (p0 : path) (content0 : bytes),
+  (forall p c, fs p = Some c -> has_parent p) -> has_parent p0 ->
+  exists f0, forall fuel, f0 <= fuel ->
+    exists items,
+      (full_run fs max_depth fuel [(p0, 0%N, parser_new content0)] = (items, FDone _ _) \/
+       exists p e, full_run fs max_depth fuel [(p0, 0%N, parser_new content0)] = (items, FBad _ _ p e)) /\
+      Forall (fun it : full_item =>
+                good_name (rr_owner (snd it)) /\ ~ In (rr_type (snd it)) forbidden_types /\
+                rdata_validate (rr_class (snd it)) (rr_type (snd it)) (rr_rdata (snd it)) = Ok true) items.
+Proof. exact full_run_total_valid. Qed.
+
+(* WHAT CROSSES AN INCLUDE BOUNDARY, in the fields of zone_file::Context.  At an $INCLUDE line that
+   can be followed, the expansion is: the included file parsed by a fresh parser (reader at line 1,
+   column 1, outside parentheses, no error) whose context is the includer's previous owner,
+   previous TTL, previous class and default TTL, with the origin named by the directive if there is
+   one and the includer's otherwise; then the includer's own parser — its reader exactly where it
+   was — with ITS OWN origin and the previous owner, previous TTL, previous class and default TTL
+   ($TTL) the included file ended with. *)
+Theorem c25_full_include_boundary :
+  forall (fs : path -> option bytes) d chain p k s n ip org s' newp content,
+  full_pnext s = PInc _ _ _ _ _ n ip org s' -> compute_path p ip = Some newp -> fs newp = Some content ->
+  full_expand fs (S d) chain p (S k) s =
+  (let child := mkParser false (rd_new content)
+                  (mkCtx (match org with Some o => Some o | None => ZfParser.c_origin (ps_ctx s') end)
+                         (c_prev_owner (ps_ctx s')) (c_prev_ttl (ps_ctx s')) (c_prev_class (ps_ctx s'))
+                         (c_default_ttl (ps_ctx s'))) in
+   let '(it, o) := full_expand fs d (chain ++ [(p, n)]) newp (S (full_size child)) child in
+   match o with
+   | GCtx _ _ _ _ _ _ cend =>
+       let '(it', o') := full_expand fs (S d) chain p k
+                           (mkParser (ps_error s') (ps_rd s')
+                              (mkCtx (ZfParser.c_origin (ps_ctx s')) (c_owner _ _ _ _ cend) (c_ttl _ _ _ _ cend)
+                                     (c_class _ _ _ _ cend) (c_dttl _ _ _ _ cend))) in
+       (it ++ it', o')
+   | bad => (it, bad)
+   end).
+Proof. exact full_expand_include. Qed.
+
+(* Non-vacuity on real text: the root sets origin e. and $TTL 5 and includes s/a with origin o.;
+   the included file has a relative owner (x -> x.o.), then $TTL 60, $ORIGIN q. and y (-> y.q.);
+   back in the root, the record with omitted owner gets y.q. (the included file's last owner), and
+   `w` is relative to the root's RESTORED origin (w.e.) while its omitted TTL is the included
+   file's $TTL 60 (the default TTL is not restored).  With depth limit 0 the $INCLUDE is an error. *)
+Definition octets (s : string) : bytes := map N_of_ascii (list_ascii_of_string s).
+Definition exf_root := octets "$ORIGIN e.
+$TTL 5
+$INCLUDE s/a o.
+ 7 IN A 1.2.3.4
+w A 1.2.3.5
+".
+Definition exf_inc := octets "x 9 IN A 9.9.9.9
+$TTL 60
+$ORIGIN q.
+y A 1.1.1.1
+".
+Definition exf (p : path) : option bytes :=
+  if list_eq_dec N.eq_dec p (octets "r/z") then Some exf_root
+  else if list_eq_dec N.eq_dec p (octets "r/s/a") then Some exf_inc else None.
+Definition exf_view (x : list full_item * full_final) :=
+  (map (fun it : full_item => (fst it, n_wire (rr_owner (snd it)), rr_ttl (snd it), rr_rdata (snd it))) (fst x), snd x).
+
+Example c25_full_example :
+  option_map exf_view (full_open_and_run exf 1 60 (octets "r/z")) =
+  Some ([(octets "r/s/a", 1, [1; 120; 1; 111; 0], 9, [9; 9; 9; 9]);
+         (octets "r/s/a", 4, [1; 121; 1; 113; 0], 60, [1; 1; 1; 1]);
+         (octets "r/z", 4, [1; 121; 1; 113; 0], 7, [1; 2; 3; 4]);
+         (octets "r/z", 5, [1; 119; 1; 101; 0], 60, [1; 2; 3; 5])]%N, FDone _ _) /\
+  option_map exf_view (full_open_and_run exf 0 60 (octets "r/z")) =
+  Some ([], FBad _ _ (octets "r/z") (ITooDeep _ _ 3%N [(octets "r/z", 3%N)])) /\
+  full_expand_root exf 1 (octets "r/z") exf_root =
+  (fst (full_run exf 1 60 [(octets "r/z", 0%N, parser_new exf_root)]),
+   snd (full_expand_root exf 1 (octets "r/z") exf_root)).
+Proof. split; [|split]; vm_compute; reflexivity. Qed.
+
 Print Assumptions c25_stack_eq_expand.
 Print Assumptions c25_terminates.
 Print Assumptions c25_depth.
 Print Assumptions c25_context_scoping.
+Print Assumptions c25_iter_stack_eq_expand.
+Print Assumptions c25_iter_depth.
+Print Assumptions c25_full_stack_eq_expand.
+Print Assumptions c25_full_total_valid.
+Print Assumptions c25_full_include_boundary.
